@@ -313,6 +313,9 @@ def run(R, env):
                 else:
                     leaves[".".join(pre)] = t
             walk(v, [])
+            # a leaf that is a component of a helper's result (`AddressPrefixes::validate(..)?.native_account`) is the value
+            # that helper computes
+            leaves = {k_: shared._head_resolved(prog, v_, o.get("assumptions", ())) for k_, v_ in leaves.items()}
             bad = []
             for leaf, val in leaves.items():
                 if leaf in RENAMES_1_0_0:
@@ -331,6 +334,9 @@ def run(R, env):
                 elif leaf == "protocol_fee_config.treasury_address":
                     alts = val[1] if val[0] == "phi" else (val,)
                     okt = len(alts) == 2 and any(a[0] == "agg" and a[2] == "None" for a in alts) and any(a[0] == "agg" and a[2] == "Some" and field_path(a[3][0][2])[1] == ["treasury_address"] and oldcfg(field_path(a[3][0][2])[0]) for a in alts)
+                    if not okt and val[0] == "call" and val[1].split("::")[-1] == "then_some" and "bool" in val[1] and len(val[2]) == 2:
+                        # old.send_fees_to_treasury.then_some(old.treasury_address): Some exactly when the flag is set
+                        okt = field_path(val[2][0])[1] == ["send_fees_to_treasury"] and oldcfg(field_path(val[2][0])[0]) and field_path(val[2][1])[1] == ["treasury_address"] and oldcfg(field_path(val[2][1])[0])
                     if not okt:
                         bad.append("%s <- %s" % (leaf, fmt(val)[:80]))
                 elif leaf == "monitors":
@@ -360,7 +366,7 @@ def run(R, env):
                         ta = _rt3(prog, ta, 2, None, w.assumptions)
                     if ta is None or ta[0] != "agg":
                         R.set_undecided(["C18.R5"], "the migrated treasury_address is computed by a combinator this rule does not model")
-                    R.ob("C18.R5", "1.0.0:treasury-%s-iff-send_fees=%s" % (nm, val_), n >= 1 and ta is not None and ta[0] == "agg" and ta[2] == nm, "with send_fees_to_treasury=%s the migrated treasury_address is %s" % (val_, fmt(ta or ("none",))[:80]), loc=o2["loc"], fn=mk)
+                    R.ob("C18.R5", "1.0.0:treasury-%s-iff-send_fees=%s" % (nm, val_), ta is not None and ta[0] == "agg" and ta[2] == nm, "with send_fees_to_treasury=%s the migrated treasury_address is %s" % (val_, fmt(ta or ("none",))[:80]), loc=o2["loc"], fn=mk)
             # the denom supplied is validated before the save
             vd = [bi for bi, t, a in call_sites(mc, lambda nm: nm.endswith("validate_denom")) if a and shared.msg_field(a[0], "V0_4_20ToV1_0_0", "native_token_denom")]
             R.clear_undecided(["C18.R5"])
